@@ -805,7 +805,8 @@ fn suffix_events(tk: &str, t: NaiveDate) -> Vec<Transaction> {
 fn growth_suffixes(prefix: &[Transaction], t_last: NaiveDate) -> Vec<Vec<Transaction>> {
     let mut out = vec![];
     let first_tk = tickers_of(prefix).into_iter().next().unwrap_or_else(|| "X".to_string());
-    for k in [1usize, 2, 3, 4, 5, 6, 8, 12] {
+    // up to 40 lines: library sort routines switch algorithm at 20 and again around 32 elements
+    for k in [1usize, 2, 3, 4, 5, 6, 8, 12, 16, 20, 24, 28, 32, 40] {
         out.push((0..k).map(|i| alpha::dividend(t_last + Duration::days(31 + i as i64), "ZZ", "3", "1")).collect());
         out.push((0..k).map(|i| alpha::buy(t_last + Duration::days(40 + 2 * i as i64), &first_tk, "7", &format!("{}", 30 + i), "1")).collect());
     }
@@ -1022,7 +1023,7 @@ pub fn oracle(prop: &str, env: &Env, txs: &[Transaction], acc: &mut Acc, tier: T
         "C12" => oracle_c12(env, txs, acc, if tier == Tier::Quick { 1 } else { 2 }, false),
         // two-line continuations (purchases and sales only) of prefixes that are also run in their other line orders
         "C12deep" => oracle_c12(env, txs, acc, 2, true),
-        // the file grows by 1..12 lines (max_suffix 0 selects the growth continuations), prefixes in every line order
+        // the file grows by 1..40 lines (max_suffix 0 selects the growth continuations), prefixes in every line order
         "C12pad" => oracle_c12(env, txs, acc, 0, false),
         other => machinery_failure(&format!("ledger::oracle has no clause set for {other}")),
     }
@@ -1294,7 +1295,7 @@ pub fn c12(tier: Tier) -> i32 {
     // prefixes in their other line orders (a SELL line written before the same day's BUY line) with every continuation
     // of up to two purchases/sales
     explore_alpha("C12deep", &mut ctx, &env, &profiles::match1(&["2"], true), n_m + 1, &mut acc);
-    // the file grows by 1..12 lines: two securities with several fills per day, every line order of the prefix
+    // the file grows by 1..40 lines: two securities with several fills per day, every line order of the prefix
     explore_alpha("C12pad", &mut ctx, &env, &profiles::two_sec_fills(), n_two + 1, &mut acc);
     explore_alpha("C12pad", &mut ctx, &env, &profiles::two_sec(), n_two, &mut acc);
     explore_alpha("C12pad", &mut ctx, &env, &profiles::match1(&["2"], true), n_m + 1, &mut acc);
